@@ -1,5 +1,5 @@
 """C04 — public key and address are the secp256k1 / Keccak-256 images of the secret."""
-from ..gen import both, boundary_scalar, lib_case, rand_bytes
+from ..gen import both, boundary_scalar, lib_case, rand_bytes, limb_value
 from ..ref import eth, secp
 from ..run.core import V
 
@@ -99,6 +99,8 @@ def gen(shard, rng, tier):
                 else:
                     b = (N.to_bytes(32, "big") * 2)[:l] if l <= 32 else bytes(l - 32) + (N - 1).to_bytes(32, "big")
                 yield from case(b)
+    for _ in range(shard["count"] // 10):
+        yield from case(limb_value(rng).to_bytes(32, "big"))
     for _ in range(shard["count"]):
         r = rng.random()
         if r < 0.8:
